@@ -85,6 +85,7 @@ func faultOpts(prop string, thorough bool) (GenOpts, faultEmphasis) {
 		em.Timeout = true
 		em.StartHigh = true
 		em.EnvPanic = true
+		em.Backlog = true
 	case "C06":
 		em.ConnPhase = 5
 		em.Timeout = true
@@ -392,6 +393,29 @@ func RunCase(t *testing.T, spec CaseSpec) *CaseResult {
 		res.Nontrivial = delivered > 0 && faultInFlight
 	case "C05":
 		add(checkC05(r))
+		for _, a := range r.Results {
+			if len(a.Causes) > 0 && a.Causes[0] == "cancel" && a.CauseSeq > 0 && len(a.Calls) > 0 {
+				late, before := 0, 0
+				for _, c := range a.Calls {
+					if c.Seq > a.CauseSeq {
+						late++
+					} else {
+						before++
+					}
+				}
+				expAll, _ := r.sc.Hist.Model(r.sc.Start)
+				pending := len(expAll) - before - late
+				switch {
+				case late > 3:
+					res.Stats.probe("cancel:late-calls>3")
+				case late > 0:
+					res.Stats.probe("cancel:late-calls-1..3")
+				}
+				if pending > cancelSlack {
+					res.Stats.probe("cancel:backlog-beyond-slack-undelivered")
+				}
+			}
+		}
 		res.Nontrivial = faultInFlight || anyConnPhase(r)
 	case "C06":
 		add(checkC06(r))
@@ -708,7 +732,7 @@ func checkC15(r *Run) []Violation {
 			pu := h.Units[poison]
 			if att.PoisonDelivered || att.StreamErr != nil {
 				if att.StreamErr == nil {
-					vs = append(vs, Violation{"C15", "mismatch-accepted", fmt.Sprintf("a cached table id was re-announced with a different column count (unit %d, %s) and its rows reached the client; Stream returned nil", poison, pu.Desc), i})
+					vs = append(vs, Violation{"C15", "mismatch-accepted", fmt.Sprintf("a cached table id was re-announced with a table map its rows cannot be decoded under - another column count or a column type without a decoder - (unit %d, %s) and its rows reached the client; Stream returned nil", poison, pu.Desc), i})
 				}
 				for k, c := range att.Calls {
 					if c.Snap != nil && c.Snap.Next == pu.Tx.Next {
